@@ -235,6 +235,18 @@ def run_case(case):
     res = Res()
     watchdog = budget(desper)
     d = desper.World() if case['world'] else desper.EventDispatcher()
+    # a bystander: another dispatcher, disabled, with events of its own
+    # pending for the whole history of `d` (two worlds, one of them left)
+    by_log = []
+    Bystander = desper.event_handler('ev')(
+        type('Bystander', (), {'ev': lambda self, tok: by_log.append(tok)}))
+    bystander = Bystander()
+    d2 = desper.World() if case['world'] else desper.EventDispatcher()
+    d2.add_handler(bystander)
+    d2.dispatch_enabled = False
+    by_tokens = [object(), object()]
+    for tok in by_tokens:
+        d2.dispatch('ev', tok)
     log = []            # (seq, handler, token, assignment#, enabled_at_call)
     seq = [0]
     assignment = [None]     # index of the enabling assignment in progress
@@ -543,6 +555,17 @@ def run_case(case):
     if not res.divs:
         judge(case, res, log, tokens, changes, faulting_tokens, outcomes,
               listening, attach_owner, spare.idx)
+    if not res.divs:
+        early = list(by_log)
+        d2.dispatch_enabled = True
+        res.stats['bystander_dispatchers_checked'] += 1
+        if early or len(by_log) != 2 or any(
+                a is not b for a, b in zip(by_log, by_tokens)):
+            res.div(len(case['events']), 'bystander-queue-disturbed',
+                    'another dispatcher, disabled with two events of its own '
+                    'pending while this history ran, delivers exactly those '
+                    'two, in order, when it is enabled', 2,
+                    {'before_enabling': len(early), 'in_all': len(by_log)})
     ncallbacks = callbacks_of(case['handlers'], case['events'])
     pos = case['faults'][0][1]
     res.nontrivial = ((len(case['events']) >= 2 and 0 < pos < ncallbacks - 1
